@@ -41,6 +41,12 @@ def bodies():
             ("comp_inexact_nonzero", None, "(lambda t: ((t / {k}) * {k} - t + 1).assert_nonzero())({i})"),
             ("comp_inexact_div", "i", "(lambda t: {i} / ((t / {k}) * {k} - t + 1))({i})"),
             ("comp_inexact_zero", "b", "(lambda t: ((t / {k}) * {k} - t).check_zero())({i})"),
+            # a secret bit combined with a plain secret integer (declared boolean by the operator); public zero divisors
+            ("bool_and_int", "b", "{b} & {i}"), ("bool_or_int", "b", "{b} | {i}"), ("bool_xor_int", "b", "{b} ^ {i}"),
+            ("bool_eq_int", "b", "{b} == {i}"), ("bool_assert_eq_int", None, "{b}.assert_eq({i})"), ("bool_assert_ne_int", None, "{b}.assert_ne({i})"),
+            ("truediv_pub_zero", "i", "{i} / {Z}"), ("floordiv_pub_zero", "i", "{i} // {Z}"), ("mod_pub_zero", "i", "{i} % {Z}"), ("divmod_pub_zero", "i", "divmod({i}, {Z})[1]"),
+            ("floordiv_pub_counter", "i", "{i} // ({k} - {k})"), ("ffloordiv_pub_zero", "f", "{f} // {Z}"), ("fmod_pub_tiny", "f", "{f} % 0.0001"),
+            ("fdiv_pub_tiny", "f", "{f} / 0.0001"),
             ("comp_inexact_cmp", "b", "({i} / {k}) < {i}"), ("comp_inexact_bits", "i", "LinComb.from_bits(({i} / {k}).to_bits())")]
     return out
 
@@ -164,16 +170,25 @@ def worker(job):
             probe = opcases.Case(tid, tmpl, bl, res, [0] * sum(1 for s in opcases.slots(tmpl) if s in "ibf"), consts, rty)
             valid = sample_operands(probe, tmpl, bl, res, rnd, model, G, True)
             invalid = sample_operands(probe, tmpl, bl, res, rnd, model, G, False, p=p)
-            if valid is None:
-                R.count("no_valid_operands_found")
-                continue
+            if invalid is None or (valid is None and tid not in PUBLIC_ZERO_DIVISOR):
+                # no valid operands: the body is refused for what its text is (e.g. a boolean operator with the constant -2),
+                # not for a value it meets - except a public divisor that is zero, which the statement lists (DESIGN 6.16)
+                R.count("no_valid_operands_found" if valid is None else "no_invalid_operands_found")
+                if valid is None:
+                    continue
             alt = rnd.randint(-3, 3)
             # baseline: unguarded on valid operands
             brnd = random.Random(rnd.random())
             mix_seed = brnd.random()
-            case, pre, ung, gsrc = build(tid, rty, tmpl, mech, depth, bl, res, valid, consts, random.Random(mix_seed))
             tails = [[alt]] if mech not in ("elif", "dead_else") else [[alt, 0], [alt, 1]]
-            base_valid = run(G, N, pre + ung, valid + [1] * depth + tails[0], bl, res, p)
+            if valid is None:
+                # a body that no operand values make valid (e.g. a public zero divisor): it has no unguarded baseline, under a
+                # false guard it must still be inert
+                R.count("bodies_without_valid_operands")
+                base_valid = NoBaseline
+            else:
+                case, pre, ung, gsrc = build(tid, rty, tmpl, mech, depth, bl, res, valid, consts, random.Random(mix_seed))
+                base_valid = run(G, N, pre + ung, valid + [1] * depth + tails[0], bl, res, p)
             for oclass, ops in (("valid", valid), ("invalid", invalid)):
                 if ops is None:
                     continue
@@ -201,8 +216,17 @@ def worker(job):
                                   raised=repr(Gd.exc)[:80] if Gd.exc else None, constraints=len(Gd.snap["constraints"])), cap=6)
             # solver halves on small instances
             if job.get("solver") and bl <= 4 and depth <= 2:
-                solver_halves(R, capture, solve, N, tid, rty, tmpl, mech, depth, bl, res, valid, invalid, consts, alt, p, rnd)
+                if valid is not None:
+                    solver_halves(R, capture, solve, N, tid, rty, tmpl, mech, depth, bl, res, valid, invalid, consts, alt, p, rnd)
     return R.export()
+
+
+PUBLIC_ZERO_DIVISOR = {"truediv_pub_zero", "floordiv_pub_zero", "mod_pub_zero", "divmod_pub_zero", "floordiv_pub_counter",
+                       "ffloordiv_pub_zero", "fmod_pub_tiny", "fdiv_pub_tiny"}
+
+
+class NoBaseline:
+    exc = None
 
 
 def run(G, N, src, inputs, bl, res, p):
@@ -263,7 +287,7 @@ def judge_false(R, base_valid, Gd, rty, tid, oclass, alt, det, r1cs, api_number,
 def classify_false_raise(tid, exc, case):
     msg = str(exc)
     if isinstance(exc, ValueError) and msg == "Division by zero":
-        return "false-guard-zero-secret-divisor-raises"
+        return "false-guard-zero-public-divisor-raises" if tid in PUBLIC_ZERO_DIVISOR else "false-guard-zero-secret-divisor-raises"
     if isinstance(exc, ValueError) and msg == "LinCombBool can only take Boolean values":
         return "false-guard-nonboolean-secret-raises"
     return "false-guard-raises:%s:%s" % (tid, type(exc).__name__)
